@@ -4,6 +4,8 @@ import (
 	"fmt"
 	"go/token"
 	"go/types"
+	"os"
+	"sort"
 	"strings"
 
 	"golang.org/x/tools/go/ssa"
@@ -25,6 +27,7 @@ func init() {
 			{Name: "empty-layer-shortcut", File: "artifact/image/layerscanning/trace/trace.go", Old: "			oldChainLayer := chainLayers[i]\n", New: "			oldChainLayer := chainLayers[i]\n			if oldChainLayer.Layer().IsEmpty() {\n				continue\n			}\n", Rule: "D3-skip", Site: "PopulateLayerDetails"},
 			{Name: "scan-stops-at-layer-1", File: "artifact/image/layerscanning/trace/trace.go", Old: "		for i := len(chainLayers) - 2; i >= 0; i-- {", New: "		for i := len(chainLayers) - 2; i > 0; i-- {", Rule: "D4-all-views", Site: "PopulateLayerDetails"},
 			{Name: "origin-is-current-layer", File: "artifact/image/layerscanning/trace/trace.go", Old: "				layerDetails = chainLayerDetailsList[lastScannedLayerIndex]\n				foundOrigin = true", New: "				layerDetails = chainLayerDetailsList[min(lastScannedLayerIndex, i+1)]\n				foundOrigin = true", Rule: "D3-skip", Site: "origin"},
+			{Name: "first-same-name-entry-decides", File: "artifact/image/layerscanning/trace/trace.go", Old: "				if !areLocationsEqual(oldPKG.Locations, pkg.Locations) {\n					continue\n				}\n\n				foundPackage = true\n				break\n", New: "				foundPackage = areLocationsEqual(oldPKG.Locations, pkg.Locations)\n				break\n", Rule: "D6-presence", Site: "presence-loop"},
 		},
 	})
 }
@@ -37,6 +40,8 @@ func runC05(p *Prog, r *Report) {
 	r.Rule("D3-skip", "an iteration skips the comparison only for the sanctioned reason; origin = latest scanned layer")
 	r.Rule("D4-all-views", "the backward scan starts at len-2 and reaches index 0")
 	r.Rule("D5-same-layers", "ScanContainer scans the last chain layer and traces with the same list")
+	r.Rule("D6-presence", "a package counts as present in an older view exactly when some entry there has the same package URL and locations")
+	defer c05Presence(p, r)
 	fn := p.Func(tracePkg, "PopulateLayerDetails")
 	if fn == nil {
 		r.Undecided("D1-triple", "anchor:PopulateLayerDetails", "-", "not found")
@@ -512,4 +517,48 @@ func naturalLoop(hdr *ssa.BasicBlock) map[*ssa.BasicBlock]bool {
 		}
 	}
 	return body
+}
+
+// c05PresenceExits: the audited decision on which the search through an older view's packages
+// stops (everything else must move on to the next entry).
+var c05PresenceExits = []string{
+	"artifact/image/layerscanning/trace.areLocationsEqual(φ:[]*extractor.Package[(φ:int+1:int)].Locations,‹param1›.Packages[(φ:int+1:int)].Locations) && nil:github.com/google/osv-scalibr/extractor.Extractor != φ:[]*extractor.Package[(φ:int+1:int)].Extractor && purl.PackageURL.String(extractor.Extractor.ToPURL(φ:[]*extractor.Package[(φ:int+1:int)].Extractor,φ:[]*extractor.Package[(φ:int+1:int)])) == φ:string",
+}
+
+// c05Presence: the inner loop over the packages extracted from an older view leaves early only when
+// an entry with the same package URL and equal locations was found; entries that do not match —
+// whatever else they have in common with the traced package (e.g. the name) — never end the search.
+func c05Presence(p *Prog, r *Report) {
+	fn := p.Func(tracePkg, "PopulateLayerDetails")
+	if fn == nil {
+		return
+	}
+	var loc ssa.Instruction
+	forEachInstr(fn, func(_ *ssa.BasicBlock, _ int, in ssa.Instruction) {
+		if isCallTo(in, fp(tracePkg), "", "areLocationsEqual") {
+			loc = in
+		}
+	})
+	site := fnKey(fn) + ":presence-loop"
+	if loc == nil {
+		r.Fail("D6-presence", site, p.Pos(fn.Pos()), "locations of the old and the traced package are no longer compared")
+		return
+	}
+	hdr := loopHeaderOf(loc.Block())
+	if hdr == nil {
+		r.Fail("D6-presence", site, p.Pos(loc.Pos()), "the comparison is not made inside a loop over the older view's packages")
+		return
+	}
+	defer func(d int, a bool) { renderDepth, renderAllocs = d, a }(renderDepth, renderAllocs)
+	renderDepth, renderAllocs = 8, true
+	got := loopExitDecisions(hdr)
+	if os.Getenv("SCALINT_LEARN") != "" {
+		for _, g := range got {
+			fmt.Fprintf(os.Stderr, "LEARN-PRESENCE\t%q,\n", g)
+		}
+		return
+	}
+	want := append([]string{}, c05PresenceExits...)
+	sort.Strings(want)
+	r.Check(strings.Join(got, "\n") == strings.Join(want, "\n"), "D6-presence", site, p.Pos(hdr.Instrs[0].Pos()), "the search stops only on an entry with equal package URL and locations", fmt.Sprintf("the search through the older view's packages can stop on another decision than 'same package URL and same locations' (got %v): e.g. the first entry with the same name decides, so a second version of that name looks absent and the package is attributed to a later layer", got))
 }
